@@ -159,8 +159,15 @@ let run_c20_inst toks obs =
                          (match o with IIncrement _ -> refs s1 r | _ -> (if refused then "1" else "0") :: refs s1 r) in
            let mputs = String.concat "," (List.map (fun z -> ZZ.to_string (Values.z_of_coq z)) puts) in
            let mref = String.concat "," (refs inst0 ops) in
+           let nfin = List.length (List.filter (function IIncrement _ -> false | _ -> true) ops) in
            if List.length (split_on ',' (kv "puts" okv)) > 1 then
              Printf.sprintf "PROPFAIL %s sig=record-duplicated one instrumenter stored %s records" id (kv "puts" okv)
+           else if kv "storage" k <> "" || kv "conc" k = "1" then
+             (* a storage that is slow or reports an error after storing, finishes racing each other: what each finish returns
+                is the storage's business; exactly one record must have been stored if anything was finished at all *)
+             (if nfin >= 1 && List.length (split_on ',' (kv "puts" okv)) <> 1 then
+                Printf.sprintf "PROPFAIL %s sig=record-missing %d finishing operations stored no record" id nfin
+              else Printf.sprintf "AGREE %s %s" id (if nfin >= 2 then "nontrivial" else "trivial"))
            else if mputs <> kv "puts" okv || mref <> kv "refused" okv then
              Printf.sprintf "MISMATCH %s instrumenter: model puts=[%s] refused=[%s] impl puts=[%s] refused=[%s]" id mputs mref (kv "puts" okv) (kv "refused" okv)
            else Printf.sprintf "AGREE %s %s" id (if List.length ops >= 2 then "nontrivial" else "trivial"))
